@@ -240,9 +240,32 @@ impl MemReader {
         // I don't think there would ever be a case where we would not read on word boundaries, but just in case...
         let last = chunks.into_remainder();
         if !last.is_empty() {
-            let word = nix::sys::ptrace::read(pid, (src + offset) as *mut std::ffi::c_void)
-                .map_err(|err| (err, offset))?;
-            last.copy_from_slice(&word.to_ne_bytes()[..last.len()]);
+            const WORD: usize = std::mem::size_of::<usize>();
+            // PTRACE_PEEKDATA always transfers a whole word. Reading the word that starts at
+            // the remainder would touch bytes past the end of the requested range, which
+            // fails if the range ends at the end of a mapping. Read the word that _ends_
+            // where the range ends instead, all of it is part of the requested range unless
+            // the request is shorter than a word.
+            let last_len = last.len();
+            let read_word = |addr: usize| {
+                nix::sys::ptrace::read(pid, addr as *mut std::ffi::c_void)
+                    .map_err(|err| (err, offset))
+            };
+            if offset >= WORD {
+                let word = read_word(src + offset + last_len - WORD)?;
+                last.copy_from_slice(&word.to_ne_bytes()[WORD - last_len..]);
+            } else {
+                // Less than a word requested: either the word starting at the range or the
+                // word ending with it may reach into unreadable memory, try both.
+                match read_word(src + offset) {
+                    Ok(word) => last.copy_from_slice(&word.to_ne_bytes()[..last_len]),
+                    Err(err) => {
+                        let start = (src + offset + last_len).checked_sub(WORD).ok_or(err)?;
+                        let word = read_word(start).map_err(|_| err)?;
+                        last.copy_from_slice(&word.to_ne_bytes()[WORD - last_len..]);
+                    }
+                }
+            }
         }
 
         Ok(dst.len())
